@@ -38,6 +38,7 @@ inductive Ev
   | retSucc (id : Int)           -- returnSuccesses: success event + inFlight.Done
   | seq (id : Int)               -- partition producer stamped a sequence number
   | stamp (id : Int) (epoch seq : Int)   -- partition producer stamped (epoch, sequence) on the message (carried by `seq` events)
+  | bump (id : Int)              -- returnError bumped the producer epoch because the failed message carried a sequence number
   | stampAt (p epoch seq : Int)          -- … on a message of partition p: the counter value getAndIncrementSequenceNumber returned
   | setStamp (epoch firstSeq : Int)      -- a produce set about to go on the wire: the stamp its batch carries
   | sent (id : Int) (idx : Int)          -- … and the idx-th message of that batch
@@ -67,6 +68,7 @@ structure St where
   viaBatch  : List Int := []                 -- ids whose latest re-entry was a whole-batch resend (retryBatch)
   curStamp  : Option (Int × Int) := none     -- stamp of the produce set currently being reported
   stampLog  : List (Int × Int × Int) := []   -- (partition, epoch, sequence) of every stamp given, newest first
+  bumps     : List Int := []                 -- ids whose failure bumped the producer epoch
   shutdownStarted : Bool := false
   shutdownSeen    : Bool := false
   waited    : Bool := false
@@ -74,6 +76,9 @@ structure St where
   deriving Repr
 
 def init (cfg : Cfg) : St := { cfg := cfg }
+
+/-- failed messages that carried a sequence number and whose failure has not bumped the epoch (must be none at the end) -/
+def unbumped (s : St) : List Int := s.errs.filter (fun id => s.seqLog.count id ≠ 0 ∧ s.bumps.count id = 0)
 
 /-- number of stamps already given in (partition, epoch): the value the sequence counter of that partition holds in
     that epoch (bumpEpoch increments the epoch and resets every counter in one critical section) -/
@@ -154,6 +159,11 @@ def step (s : St) : Ev → Except String St
     else if s.seqLog.count id ≠ 0 then .error "seq: sequence stamped twice"
     else .ok { s with seqLog := id :: s.seqLog }
   | .stamp id e q => .ok { s with msgStamp := insert3 s.msgStamp id (e, q) }
+  | .bump id =>
+    if id ∉ s.errs then .error "bump: epoch bumped for a message that has no error event"
+    else if s.seqLog.count id = 0 then .error "bump: epoch bumped for a message that never got a sequence number"
+    else if s.bumps.count id ≠ 0 then .error "bump: epoch bumped twice for one message"
+    else .ok { s with bumps := id :: s.bumps }
   | .stampAt p e q =>
     if q ≠ (stampCount s.stampLog p e : Int) then
       .error "stampAt: the sequence given is not the number of stamps already given to this partition in this epoch"
